@@ -3,6 +3,7 @@
    implementation: findings C12-F9, C12-F10, C12-F11). -/
 import PS.Proofs.Enum.BeeOrderRun
 import PS.Proofs.Enum.BeeDeleted
+import PS.Proofs.Enum.BeeNodupRun
 import PS.Props.C02_Bee
 namespace PS.C12Bee
 open PS PS.G PS.Bee PS.C02Bee
@@ -53,6 +54,16 @@ theorem C12_Bee_merge_effect (E : Env S) (g : Gen S) (other : Prog) (ty : Ty) :
 
 example : (merge cE ((Gen.new cE).get (by decide +kernel)) (.node cOne []) cInt).st.deleted = [.node cOne []] := by
   decide +kernel
+
+/-- **WITH A FILTER: EACH PROGRAM AT MOST ONCE** (any filter; partial: no merge declaration in the history; decidable
+    hypotheses `dictOK`, `initFrontOK`: see C02_Bee_nodup_partial): yielded programs are pairwise distinct, accepted by the
+    filter and members of the grammar -/
+theorem C12_Bee_filter_nodup_partial (E : Env S) (hd : dictOK E = true) (hf : initFrontOK E = true) (fuel : Nat) (acts : List Act)
+    (hacts : acts.all Act.isTake = true) (g0 g : Gen S) (out : List Prog) (h0 : Gen.new E = some g0)
+    (h : runActs E fuel acts g0 [] = some (g, out)) :
+    out.Nodup ∧ ∀ p ∈ out, E.filter p = true ∧ gen E.G p E.G.start = true :=
+  ⟨(runActs_nodup E fuel acts g0 g [] out hacts h (gn_new E (dictOK_of_check E hd) hf g0 h0) ⟨by simp, by simp⟩).2.1,
+   C12_Bee_accepted E fuel acts g0 g out h0 h⟩
 
 /-- **A MERGED PROGRAM IS NEVER YIELDED AGAIN**, every history: after `merge_program(_, other)` — whatever the state
     `g` reached before (any earlier history), whatever the later interleaving of `next` calls and further merges —
